@@ -100,13 +100,15 @@ def apply_step(rng, ix, a, op):
             new_a = st.expect_dense
             st.req = {"op": "iidx", "m": "update", "self": st.pre, "entries": jent}
         elif op == "filtered":
-            mask = np.array([rng.random() < 0.6 for _ in range(N)], dtype=bool)
+            keep = rng.choice([0.6, 0.6, 0.6, 1.0, 0.0, 0.9])     # incl. masks that keep every row / no row
+            mask = np.array([rng.random() < keep for _ in range(N)], dtype=bool)
             st.args = {"mask": [bool(x) for x in mask.tolist()], "new_length": int(mask.sum())}
             mb = mask.tobytes()
             new_ix = ix.filtered(mask, int(mask.sum()))
             if mask.tobytes() != mb:
                 st.fails.append(("C06", "C06-operand-changed", "filtered() changed its mask"))
             operands.append(("receiver", ix, pre_snapshot))
+            must_not_share.append((new_ix, ix))     # a[mask] is always a fresh array
             st.expect_dense = a[mask]
             new_a = st.expect_dense
             st.req = {"op": "iidx", "m": "filtered", "self": st.pre, **st.args}
@@ -160,15 +162,27 @@ def apply_step(rng, ix, a, op):
             prec = rng.sample(pool, rng.randrange(1, len(pool) + 1))
             if rng.random() < 0.3:
                 prec = [p for p in prec if p >= 0] or [0]
-            st.args = {"precedence": [int(p) for p in prec]}
-            pc = list(prec)
-            new_ix = ix.collapsed(prec)
-            if pc != prec:
-                st.fails.append(("C06", "C06-operand-changed", "collapsed() changed its precedence list"))
+            if rng.random() < 0.35:
+                # "any precedence list": values listed more than once (the common value and the last one included)
+                for _ in range(rng.randrange(1, 4)):
+                    prec.insert(rng.randrange(0, len(prec) + 1), rng.choice(prec + [int(ix.common)]))
+            mapping = None
+            if rng.random() < 0.3:
+                keys = rng.sample(present, rng.randrange(0, len(present) + 1))
+                mapping = {int(k): int(rng.choice(pool + [int(ix.common)])) for k in keys}
+            st.args = {"precedence": [int(p) for p in prec],
+                       "mapping": None if mapping is None else [[k, v] for k, v in mapping.items()]}
+            pc, mc = list(prec), None if mapping is None else dict(mapping)
+            new_ix = ix.collapsed(prec) if mapping is None else ix.collapsed(prec, mapping)
+            if pc != prec or mc != mapping:
+                st.fails.append(("C06", "C06-operand-changed", "collapsed() changed its precedence list or mapping"))
             operands.append(("receiver", ix, pre_snapshot))
-            st.expect_dense = I.np_collapsed(a, prec)
+            must_not_share.append((new_ix, ix))
+            st.expect_dense = I.np_collapsed(a, prec, mapping)
             new_a = st.expect_dense
             st.req = {"op": "iidx", "m": "collapsed", "self": st.pre, "precedence": st.args["precedence"]}
+            if mapping is not None:
+                st.req["mapping"] = st.args["mapping"]
         elif op == "column_stack":
             others = []
             for _ in range(rng.randrange(0, 3)):
@@ -256,8 +270,11 @@ def apply_step(rng, ix, a, op):
         if I.snapshot(obj) != snap:
             st.fails.append(("C06", "C06-operand-changed", "%s left its %s changed" % (op, name)))
     for res, src in must_not_share:
-        if res is not src and I.shares_storage(res, src):
-            st.fails.append(("C06", "C06-shares-storage", "%s(copy=True) result shares row-id storage with its source" % op))
+        if res is src:
+            st.fails.append(("C06", "C06-shares-storage", "%s returned its source object instead of a new index: a later "
+                             "in-place operation on either changes the other" % op))
+        elif I.shares_storage(res, src):
+            st.fails.append(("C06", "C06-shares-storage", "%s result shares row-id storage with its source" % op))
     st.post = I.to_json(new_ix)
     try:
         got = I.dense_of(new_ix)
